@@ -177,6 +177,14 @@ func (en *SpecEnv) evalIdent(id *ast.Ident) Val {
 			return en.x.constVal(c.Type(), c.Val())
 		}
 	}
+	if en.pkg != nil {
+		// a package name (contracts evaluated at a call site have no file scope)
+		for _, imp := range en.pkg.Imports() {
+			if imp.Name() == id.Name {
+				return Val{K: KNone, S: "pkg:" + imp.Path()}
+			}
+		}
+	}
 	en.fail("unknown identifier %s", id.Name)
 	return Val{}
 }
@@ -585,7 +593,17 @@ func (en *SpecEnv) evalCall(c *ast.CallExpr) Val {
 		if v.K == KSlice {
 			return mathInt(v.Ref)
 		}
+		if v.K == KIface {
+			return mathInt(v.Dat)
+		}
 		return mathInt(v.S)
+	case "dyntype":
+		// dyntype(v): the dynamic type tag of an interface value (0 for nil)
+		v := en.eval(c.Args[0])
+		if v.K != KIface {
+			en.fail("dyntype() needs an interface value")
+		}
+		return mathInt(v.Tag)
 	case "off":
 		return mathInt(en.eval(c.Args[0]).Off)
 	case "at":
@@ -632,7 +650,7 @@ func (en *SpecEnv) evalCall(c *ast.CallExpr) Val {
 		return boolVal(ok)
 	case "ctxdone":
 		// ctxdone(ctx): this path received from ctx.Done()
-		return boolVal(boolStr(en.s.ctxDone[exprString(c.Args[0])]))
+		return boolVal(en.s.ctxDoneTerm(exprString(c.Args[0])))
 	case "held":
 		return boolVal(boolStr(en.s.held[exprString(c.Args[0])]))
 	}
